@@ -26,12 +26,14 @@ import DDProps.C05Lex
 import DDProps.C06
 import DDProps.C06Rooted
 import DDProps.C07
+import DDProps.C07Accept
 import DDProps.C07Levels
 import DDProps.C08
 import DDProps.C08Sched
 import DDProps.C08Values
 import DDProps.C08Values2
 import DDProps.C09
+import DDProps.C09Accept
 import DDProps.C09Sched
 import DDProps.C09SchedKeep
 import DDProps.C10
@@ -58,6 +60,7 @@ import DDProps.Histories2
 import DDProps.Histories3
 import DDProps.Histories4
 import DDProps.Histories5
+import DDProps.Histories4Sched
 import DDProps.Tables
 import DD.ApiDriver
 import DD.AutoDriver
